@@ -1,0 +1,13 @@
+//go:build verif
+// +build verif
+
+package chain
+
+import "github.com/LemoFoundationLtd/lemochain-core/chain/consensus"
+
+// This file is compiled only with the "verif" build tag (verification harnesses in /verif).
+
+// VerifC19Engine returns the consensus engine of the chain, so that the thread-safety harness can
+// call it the way BlockChain does while keeping the results BlockChain drops (InsertConfirms,
+// MineBlock) and subscribe to its feeds.
+func VerifC19Engine(bc *BlockChain) *consensus.DPoVP { return bc.engine }
